@@ -46,7 +46,11 @@ func scanW(f string, nargs int) (ws []wDirective, total int) {
 			}
 			i += j + 1
 		}
-		for i < len(f) && f[i] >= '0' && f[i] <= '9' {
+		// width / precision: digits, or '*' which consumes an operand whatever its type
+		for i < len(f) && (f[i] >= '0' && f[i] <= '9' || f[i] == '.' || f[i] == '*') {
+			if f[i] == '*' && argNum < nargs {
+				argNum++
+			}
 			i++
 		}
 		if i >= len(f) {
@@ -239,7 +243,22 @@ func expectedHookCalls(ts []*lib.Term, entry string, verbs []int) []lib.CallRec 
 				out = append(out, lib.CallRec{M: "Hook", ID: t.ID, V: v})
 			}
 			return
-		case "slice", "map":
+		case "slice", "map", "tmap":
+			for _, x := range t.Xs {
+				walk(x, verb, inh, ro, false)
+			}
+		case "tslice":
+			u8 := len(t.Xs) > 0 && t.Xs[0].K == "obj" && func() bool {
+				for _, c := range t.Xs[0].Caps {
+					if c == "U8" {
+						return true
+					}
+				}
+				return false
+			}()
+			if u8 && (verb == 's' || verb == 'q' || verb == 'x' || verb == 'X') {
+				return // a byte string: fmtBytes, no per-element dispatch
+			}
 			for _, x := range t.Xs {
 				walk(x, verb, inh, ro, false)
 			}
